@@ -15,7 +15,7 @@ def run(tier, seed, faults=()):
     from ..adapters.forms import replay_hist, replay_indexed, replay_unbinned, replay_xy
     rep = Report("C14", tier, seed, "model_checking")
     for data in DATA:
-        if not cm.run_mc_stage(rep, "Forms", cm.mc_cfg(constants(data, (3 if data == "mixed" else 2) if tier == "quick" else 4, faults=faults), INVARIANTS), ACTIONS, label="forms, %s data" % data):
+        if not cm.run_mc_stage(rep, "Forms", cm.mc_cfg(constants(data, (3 if data == "mixed" else 2) if tier == "quick" else 3, faults=faults), INVARIANTS), ACTIONS, label="forms, %s data" % data):
             return rep
     for data in DATA:
         cm.run_replay_stage(rep, "GenForms", cm.gen_cfg(constants(data, 2, faults=faults)), replay_xy, "xy, %s data: all histories, 2 steps" % data,
